@@ -2,26 +2,50 @@ package PVM
 
 import (
 	"encoding/binary"
-	"errors"
 	"fmt"
-
-	"github.com/New-JAMneration/JAM-Protocol/internal/types"
-	utils "github.com/New-JAMneration/JAM-Protocol/internal/utilities"
 )
 
+// operandWindowLen bounds how far past the opcode any operand format reaches
+// (load_imm_64: ı+9, two registers & two immediates: ı+10).
+const operandWindowLen = 16
+
+// operandWindow returns ζ[pc … pc+operandWindowLen): the instruction bytes
+// followed by zeroes where the code ends (GP A.4: ζ ≡ c ⌢ [0, 0, …]). Operand
+// decoding works on this window so that an instruction cut short by the end of
+// the code reads zeroes rather than whatever follows in the backing array (or
+// slices past its capacity).
+func operandWindow(code []byte, pc ProgramCounter) [operandWindowLen]byte {
+	var w [operandWindowLen]byte
+	if int(pc) < len(code) {
+		copy(w[:], code[pc:])
+	}
+	return w
+}
+
+// immLen is min(4, max(0, ℓ − used)) evaluated over the integers (the
+// subtraction must not wrap in the unsigned ProgramCounter type).
+func immLen(skipLength ProgramCounter, used ProgramCounter) ProgramCounter {
+	if skipLength <= used {
+		return 0
+	}
+	return min(4, skipLength-used)
+}
+
 func getRegModIndex(instructionCode []byte, pc ProgramCounter) uint8 {
-	return min(12, (instructionCode[pc+1])%16)
+	z := operandWindow(instructionCode, pc)
+	return min(12, z[1]%16)
 }
 
 func getRegFloorIndex(instructionCode []byte, pc ProgramCounter) uint8 {
-	return min(12, (instructionCode[pc+1])>>4)
+	z := operandWindow(instructionCode, pc)
+	return min(12, z[1]>>4)
 }
 
 // A.5.2
 func decodeOneImmediate(instructionCode []byte, pc ProgramCounter, skipLength ProgramCounter) (int, error) {
+	z := operandWindow(instructionCode, pc)
 	lX := min(4, skipLength)
-	immediateData := instructionCode[pc+1 : pc+lX+1]
-	immediate, _, err := ReadUintSignExtended(immediateData, len(immediateData))
+	immediate, _, err := ReadUintSignExtended(z[1:1+lX], int(lX))
 	if err != nil {
 		return 0, err
 	}
@@ -35,26 +59,17 @@ func decodeOneRegisterAndOneExtendedWidthImmediate(instructionCode []byte, pc Pr
 
 // A.5.4
 func decodeTwoImmediates(instructionCode []byte, pc ProgramCounter, skipLength ProgramCounter) (uint64, uint64, error) {
-	lX := ProgramCounter(min(4, uint8(instructionCode[pc+1])))
-
-	decodedVX, err := utils.DeserializeFixedLength(instructionCode[pc+2:pc+2+lX], types.U64(lX))
+	z := operandWindow(instructionCode, pc)
+	lX := ProgramCounter(min(4, z[1]%8))
+	vX, _, err := ReadUintSignExtended(z[2:2+lX], int(lX))
 	if err != nil {
-		return 0, 0, fmt.Errorf("opcode %s(%d) at pc=%d deserialize vx raise error : %w", zeta[opcode(instructionCode[pc])], opcode(instructionCode[pc]), pc, err)
+		return 0, 0, fmt.Errorf("opcode %s(%d) at pc=%d decode vx raise error : %w", zeta[opcode(z[0])], opcode(z[0]), pc, err)
 	}
 
-	vX, err := SignExtend(uint8(lX), uint64(decodedVX))
+	lY := immLen(skipLength, lX+1)
+	vY, _, err := ReadUintSignExtended(z[2+lX:2+lX+lY], int(lY))
 	if err != nil {
-		return 0, 0, fmt.Errorf("opcosde %s(%d) at pc=%d signExtend lx raise error : %w", zeta[opcode(instructionCode[pc])], opcode(instructionCode[pc]), pc, err)
-	}
-
-	lY := min(4, max(0, skipLength-lX-1))
-	decodedVy, err := utils.DeserializeFixedLength(instructionCode[pc+2+lX:pc+2+lX+lY], types.U64(lY))
-	if err != nil {
-		return 0, 0, fmt.Errorf("opcosde %s(%d) at pc=%d deserialization vy raise error : %w", zeta[opcode(instructionCode[pc])], opcode(instructionCode[pc]), pc, err)
-	}
-	vY, err := SignExtend(uint8(lY), uint64(decodedVy))
-	if err != nil {
-		return 0, 0, fmt.Errorf("opcosde %s(%d) at pc=%d signExtend lx raise error : %w", zeta[opcode(instructionCode[pc])], opcode(instructionCode[pc]), pc, err)
+		return 0, 0, fmt.Errorf("opcode %s(%d) at pc=%d decode vy raise error : %w", zeta[opcode(z[0])], opcode(z[0]), pc, err)
 	}
 
 	return vX, vY, nil
@@ -63,9 +78,9 @@ func decodeTwoImmediates(instructionCode []byte, pc ProgramCounter, skipLength P
 // A.5.5
 // returns vX
 func decodeOneOffset(instructionCode []byte, pc ProgramCounter, skipLength ProgramCounter) (ProgramCounter, error) {
+	z := operandWindow(instructionCode, pc)
 	lX := min(4, skipLength)
-	offsetData := instructionCode[pc+1 : pc+1+lX]
-	offset, _, err := ReadIntFixed(offsetData, len(offsetData))
+	offset, _, err := ReadIntFixed(z[1:1+lX], int(lX))
 	if err != nil {
 		return 0, err
 	}
@@ -76,13 +91,13 @@ func decodeOneOffset(instructionCode []byte, pc ProgramCounter, skipLength Progr
 // A.5.6
 // returns rA, vX
 func decodeOneRegisterAndOneImmediate(instructionCode []byte, pc ProgramCounter, skipLength ProgramCounter) (uint8, uint64, error) {
-	rA := min(12, instructionCode[pc+1]%16)
-	lX := min(4, max(0, skipLength-1))
+	z := operandWindow(instructionCode, pc)
+	rA := min(12, z[1]%16)
+	lX := immLen(skipLength, 1)
 
-	immediateData := instructionCode[pc+2 : pc+2+lX]
-	immediate, _, err := ReadUintSignExtended(immediateData, len(immediateData))
+	immediate, _, err := ReadUintSignExtended(z[2:2+lX], int(lX))
 	if err != nil {
-		pvmLogger.Errorf("opcode %s at instruction %d deserialize vy raise error : %s", zeta[opcode(instructionCode[pc])], pc, err)
+		pvmLogger.Errorf("opcode %s at instruction %d deserialize vy raise error : %s", zeta[opcode(z[0])], pc, err)
 		return 0, 0, err
 	}
 
@@ -91,26 +106,18 @@ func decodeOneRegisterAndOneImmediate(instructionCode []byte, pc ProgramCounter,
 
 // A.5.7
 func decodeOneRegisterAndTwoImmediates(instructionCode []byte, pc ProgramCounter, skipLength ProgramCounter) (int8, uint64, uint64, error) {
-	rA := int8(min(12, instructionCode[pc+1]%16))
-	lX := min(4, ProgramCounter(uint8((instructionCode[pc+1] >> 4))))
-	pcMargin := pc + 2 + lX
-	decodedVX, err := utils.DeserializeFixedLength(instructionCode[pc+2:pcMargin], types.U64(lX))
+	z := operandWindow(instructionCode, pc)
+	rA := int8(min(12, z[1]%16))
+	lX := ProgramCounter(min(4, (z[1]>>4)%8))
+	vX, _, err := ReadUintSignExtended(z[2:2+lX], int(lX))
 	if err != nil {
-		return 0, 0, 0, fmt.Errorf("opcode %s(%d) at pc=%d deserialize vx raise error : %w", zeta[opcode(instructionCode[pc])], opcode(instructionCode[pc]), pc, err)
-	}
-	vX, err := SignExtend(uint8(lX), uint64(decodedVX))
-	if err != nil {
-		return 0, 0, 0, fmt.Errorf("opcode %s(%d) at pc=%d signExtend vx raise error : %w", zeta[opcode(instructionCode[pc])], opcode(instructionCode[pc]), pc, err)
+		return 0, 0, 0, fmt.Errorf("opcode %s(%d) at pc=%d decode vx raise error : %w", zeta[opcode(z[0])], opcode(z[0]), pc, err)
 	}
 
-	lY := min(4, max(0, skipLength-lX-1))
-	decodedVY, err := utils.DeserializeFixedLength(instructionCode[pcMargin:pcMargin+lY], types.U64(lY))
+	lY := immLen(skipLength, lX+1)
+	vY, _, err := ReadUintSignExtended(z[2+lX:2+lX+lY], int(lY))
 	if err != nil {
-		return 0, 0, 0, fmt.Errorf("opcode %s(%d) at pc=%d deserialize vy raise error : %w", zeta[opcode(instructionCode[pc])], opcode(instructionCode[pc]), pc, err)
-	}
-	vY, err := SignExtend(uint8(lY), uint64(decodedVY))
-	if err != nil {
-		return 0, 0, 0, fmt.Errorf("opcode %s(%d) at pc=%d signExtend vy raise error : %w", zeta[opcode(instructionCode[pc])], opcode(instructionCode[pc]), pc, err)
+		return 0, 0, 0, fmt.Errorf("opcode %s(%d) at pc=%d decode vy raise error : %w", zeta[opcode(z[0])], opcode(z[0]), pc, err)
 	}
 
 	return rA, vX, vY, nil
@@ -119,18 +126,17 @@ func decodeOneRegisterAndTwoImmediates(instructionCode []byte, pc ProgramCounter
 // A.5.8
 // returns rA, vX, vY
 func decodeOneRegisterOneImmediateAndOneOffset(instructionCode []byte, pc ProgramCounter, skipLength ProgramCounter) (uint8, uint64, ProgramCounter, error) {
-	rA := min(12, instructionCode[pc+1]%16)
-	lX := ProgramCounter(min(4, (instructionCode[pc+1]>>4)%8))
-	lY := min(4, max(0, skipLength-lX-1))
+	z := operandWindow(instructionCode, pc)
+	rA := min(12, z[1]%16)
+	lX := ProgramCounter(min(4, (z[1]>>4)%8))
+	lY := immLen(skipLength, lX+1)
 
-	immediateData := instructionCode[pc+2 : pc+2+lX]
-	immediate, _, err := ReadUintSignExtended(immediateData, len(immediateData))
+	immediate, _, err := ReadUintSignExtended(z[2:2+lX], int(lX))
 	if err != nil {
 		return 0, 0, 0, err
 	}
 
-	offsetData := instructionCode[pc+2+lX : pc+2+lX+lY]
-	offset, _, err := ReadIntFixed(offsetData, len(offsetData))
+	offset, _, err := ReadIntFixed(z[2+lX:2+lX+lY], int(lY))
 	if err != nil {
 		return 0, 0, 0, err
 	}
@@ -140,25 +146,19 @@ func decodeOneRegisterOneImmediateAndOneOffset(instructionCode []byte, pc Progra
 
 // A.5.9
 func decodeTwoRegisters(instructionCode []byte, pc ProgramCounter) (rD uint8, rA uint8, err error) {
-	if int(pc+1) >= len(instructionCode) {
-		return 0, 0, errors.New("pc out of bound")
-	}
 	rD = getRegModIndex(instructionCode, pc)
 	rA = getRegFloorIndex(instructionCode, pc)
 	return rD, rA, nil
 }
 
 func decodeTwoRegistersAndOneImmediate(instructionCode []byte, pc ProgramCounter, skipLength ProgramCounter) (uint8, uint8, uint64, error) {
-	rA := min(12, instructionCode[pc+1]&15)
-	rB := min(12, instructionCode[pc+1]>>4)
-	lX := min(4, max(0, skipLength-1))
-	decodedVX, err := utils.DeserializeFixedLength(instructionCode[pc+2:pc+2+lX], types.U64(lX))
+	z := operandWindow(instructionCode, pc)
+	rA := min(12, z[1]&15)
+	rB := min(12, z[1]>>4)
+	lX := immLen(skipLength, 1)
+	vX, _, err := ReadUintSignExtended(z[2:2+lX], int(lX))
 	if err != nil {
-		return 0, 0, 0, fmt.Errorf("opcode %s(%d) at pc=%d deserialization error : %w", zeta[opcode(instructionCode[pc])], opcode(instructionCode[pc]), pc, err)
-	}
-	vX, err := SignExtend(uint8(lX), uint64(decodedVX))
-	if err != nil {
-		return 0, 0, 0, err
+		return 0, 0, 0, fmt.Errorf("opcode %s(%d) at pc=%d decode error : %w", zeta[opcode(z[0])], opcode(z[0]), pc, err)
 	}
 
 	return rA, rB, vX, nil
@@ -167,12 +167,12 @@ func decodeTwoRegistersAndOneImmediate(instructionCode []byte, pc ProgramCounter
 // A.5.11
 // returns rA, rB, vX
 func decodeTwoRegistersAndOneOffset(instructionCode []byte, pc ProgramCounter, skipLength ProgramCounter) (uint8, uint8, ProgramCounter, error) {
-	rA := min(12, instructionCode[pc+1]%16)
-	rB := min(12, instructionCode[pc+1]>>4)
-	lX := min(4, max(0, skipLength-1))
+	z := operandWindow(instructionCode, pc)
+	rA := min(12, z[1]%16)
+	rB := min(12, z[1]>>4)
+	lX := immLen(skipLength, 1)
 
-	offsetData := instructionCode[pc+2 : pc+2+lX]
-	offset, _, err := ReadIntFixed(offsetData, len(offsetData))
+	offset, _, err := ReadIntFixed(z[2:2+lX], int(lX))
 	if err != nil {
 		return 0, 0, 0, err
 	}
@@ -183,19 +183,18 @@ func decodeTwoRegistersAndOneOffset(instructionCode []byte, pc ProgramCounter, s
 // A.5.12
 // returns rA, rB, vX, vY
 func decodeTwoRegistersAndTwoImmediates(instructionCode []byte, pc ProgramCounter, skipLength ProgramCounter) (uint8, uint8, uint64, uint64, error) {
-	rA := min(12, instructionCode[pc+1]%16)
-	rB := min(12, instructionCode[pc+1]>>4)
-	lX := ProgramCounter(min(4, instructionCode[pc+2]%8))
-	lY := min(4, max(0, skipLength-lX-2))
+	z := operandWindow(instructionCode, pc)
+	rA := min(12, z[1]%16)
+	rB := min(12, z[1]>>4)
+	lX := ProgramCounter(min(4, z[2]%8))
+	lY := immLen(skipLength, lX+2)
 
-	vXData := instructionCode[pc+3 : pc+3+lX]
-	vX, _, err := ReadUintFixed(vXData, len(vXData))
+	vX, _, err := ReadUintSignExtended(z[3:3+lX], int(lX))
 	if err != nil {
 		return 0, 0, 0, 0, err
 	}
 
-	vYData := instructionCode[pc+3+lX : pc+3+lX+lY]
-	vY, _, err := ReadUintFixed(vYData, len(vYData))
+	vY, _, err := ReadUintSignExtended(z[3+lX:3+lX+lY], int(lY))
 	if err != nil {
 		return 0, 0, 0, 0, err
 	}
@@ -205,12 +204,10 @@ func decodeTwoRegistersAndTwoImmediates(instructionCode []byte, pc ProgramCounte
 
 // A.5.13
 func decodeThreeRegisters(instructionCode []byte, pc ProgramCounter) (rA uint8, rB uint8, rD uint8, err error) {
-	if int(pc+2) >= len(instructionCode) {
-		return 0, 0, 0, errors.New("pc out of bound")
-	}
-	rA = getRegModIndex(instructionCode, pc)
-	rB = getRegFloorIndex(instructionCode, pc)
-	rD = min(12, instructionCode[pc+2])
+	z := operandWindow(instructionCode, pc)
+	rA = min(12, z[1]%16)
+	rB = min(12, z[1]>>4)
+	rD = min(12, z[2])
 	return rA, rB, rD, nil
 }
 
